@@ -100,3 +100,8 @@ def make_line(sh):
         env = {"kind": out.kind, "exc": out.exc_name, "site": out.site, "line": sh.raw}
         return ctx.known(PID, {"form": "line"}, env), info
     return Ob("C13:line:%r" % (sh.raw,), body, timeout=40, tags={"form": "line", "raw": sh.raw}, text=repr(sh.raw))
+
+
+def gates(tier, seed):
+    from .gates import assembler_gates
+    return assembler_gates(tier, seed)
